@@ -20,12 +20,14 @@ func run(c *driver.Ctx) {
 	n1 := int64(c.N(150, 2500))
 	n2 := int64(c.N(40, 700))
 	nd := int64(c.N(40, 600))
+	n3 := int64(c.N(6, 60))
 	if c.Variant == "race" {
 		n1 = int64(c.N(40, 500))
 		n2 = int64(c.N(30, 500))
 		nd = int64(c.N(20, 300))
+		n3 = int64(c.N(3, 20))
 	}
-	for i := int64(0); i < n1+nd+n2; i++ {
+	for i := int64(0); i < n1+nd+n2+n3; i++ {
 		if !c.Want(i) {
 			continue
 		}
@@ -41,9 +43,12 @@ func run(c *driver.Ctx) {
 		case i < n1+nd:
 			runDirected(c, rng, i-n1)
 			c.Observe("l1_directed_rendezvous", 1)
-		default:
+		case i < n1+nd+n2:
 			runL2(c, rng, i-n1-nd)
 			c.Observe("l2_histories", 1)
+		default:
+			runStress(c, rng, i-n1-nd-n2)
+			c.Observe("l3_stress_histories", 1)
 		}
 	}
 }
@@ -54,6 +59,7 @@ func main() {
 		Level: "exploration",
 		Rule: "L1: a case is a seed-generated script of offer / complete / cancel steps on a seed-generated configuration (memory|persistent, requests|items|bytes sizer, capacity, 1-3 consumers, block_on_overflow, wait_for_result), distinct by (configuration, step trace), non-trivial when it reached a refusal, a blocked producer, >= 2 requests in flight or a cancellation while blocked; " +
 "L1-directed: the signal-versus-cancel rendezvous inside a blocked producer's wait window (completion and cancellation made ready at the same instant through the instrumented context), followed by a block/complete/release probe of the wake-up bookkeeping; " +
+			"L3: high-volume accounting stress (4-8 producers x 1200-4000 blocking offers of different sizes, with and without wait_for_result, size readers hammering the lock) judged only by size bounds, zero at rest, every producer returning; " +
 			"L2: a case is one concurrent history (2-5 producers x 3-7 offers, auto-completing consumers, cancellers, size reader), distinct by interleaving signature (order of call/return/hand-off/done events with ids erased), non-trivial when >= 2 offers overlapped in time",
 		Assumptions: []string{
 			"reported size = the exporter's own otelcol_exporter_queue_size gauge (what a user sees)",
